@@ -16,11 +16,11 @@ META = dict(
     functions=['scared.preprocesses._base:preprocess/Preprocess', 'scared.preprocesses.first_order:square/serialize_bit/fft_modulus/center/standardize/StandardizeOn/CenterOn/ToPower',
                'scared.preprocesses.high_order._base:_CombinationPointToPoint/_CombinationOfTwoFrames/_CombinationFrameOnDistance/_combination',
                'scared.preprocesses.high_order.standard:Product/Difference/AbsoluteDifference/CenteredProduct', 'scared.preprocesses.high_order.time_freq:Xcorr/WindowFFT/WindowFHT/MaxCorr/ConcatFFT/ConcatFHT'],
-    bounds=dict(quick='batches of 2 symbolic traces of 5 samples; 13 frame / frame_2 / mode / distance configurations (slices, lists, single points, distance 1..3) x 4 combination preprocesses: '
+    bounds=dict(quick='batches of 2 symbolic traces of 5 samples; the full cross product of a 12-frame pool (Ellipsis, points 0, 3 and 4, slices with and without step or start, lists with disorder and duplicates, a range) as frame_1, frame_1 x frame_2, point-to-point pairs of equal length, and distance 1..6 (beyond the frame length): about 300 configurations x 4 combination preprocesses: '
                       'output columns == documented pair list in order, row r depends on row r only, outputs of earlier calls are not overwritten by later calls; '
                       'integer traces as bit-vectors of uint8/int8/uint16/int16/int32/uint32/int64 (all values): result == operation over the integers (no wrap); '
                       'first-order and time-frequency preprocesses against their formulas (exact DFT for frame lengths 2 and 4)',
-                thorough='frames of 6 samples, distance up to 5'),
+                thorough='traces of 6 samples, 17-frame pool (also descending ranges, tuples), distance 1..7: about 600 configurations'),
     assumptions=['exact reals for float traces; bit-vectors with numpy wrap-around semantics for integer traces', 'DFT exact for lengths 1, 2, 4'],
     outside=['frame lengths other than 2 and 4 for the FFT based preprocesses', 'rounding at the promoted float type'],
     stubs=['numpy.fft: DFT definition for lengths 1, 2, 4'],
@@ -33,12 +33,21 @@ def prepare(tier, seed):
     _m.update(pp=mods[0], fo=mods[1], ho=mods[2], tf=mods[3])
 
 
-CONFIGS = [
-    dict(frame_1=slice(0, 3)), dict(frame_1=[4, 0, 2]), dict(frame_1=slice(1, 5, 2)), dict(frame_1=2),
-    dict(frame_1=slice(0, 2), frame_2=slice(2, 5)), dict(frame_1=[3, 1], frame_2=[0, 4, 4]), dict(frame_1=1, frame_2=slice(0, 5, 2)),
-    dict(frame_1=slice(0, 3), frame_2=slice(2, 5), mode='same'), dict(frame_1=[4, 0], frame_2=[1, 1], mode='same'), dict(frame_1=3, frame_2=0, mode='same'),
-    dict(frame_1=slice(0, 5), distance=1), dict(frame_1=slice(0, 4), distance=3), dict(frame_1=[4, 2, 0, 1], distance=2),
-]
+def _flen(f, L_):
+    return len(_frame(f, L_))
+
+
+def configs(tier, L_=5):
+    """Every way of naming frames the documentation allows, crossed: one frame, frame x frame, point to point ('same'), and distance
+    (1 .. beyond the frame length). quick uses a 12-frame pool on 5 samples, thorough a 17-frame pool on 6 samples."""
+    pool = [..., 0, 3, slice(0, 3), slice(1, 5, 2), [4, 0, 2], [1, 1], 4, slice(2, 5), slice(None, 4), [3, 1], range(1, 4)]
+    if tier != 'quick':
+        pool += [L_ - 1, slice(0, L_, 3), [L_ - 1, 0], range(L_ - 1, 0, -2), (2, 3)]
+    out = [dict(frame_1=f) for f in pool]
+    out += [dict(frame_1=f, frame_2=g) for f in pool for g in pool]
+    out += [dict(frame_1=f, frame_2=g, mode='same') for f in pool for g in pool if f is not ... and g is not ... and _flen(f, L_) == _flen(g, L_)]
+    out += [dict(frame_1=f, distance=d) for f in pool for d in range(1, L_ + 2)]
+    return out
 
 
 def _frame(f, L_):
@@ -66,7 +75,7 @@ def pair_list(cfg, L_):
 
 
 def jobs(tier, seed):
-    js = [dict(name=f'pairs-{op}', kind='pairs', op=op) for op in ('Product', 'Difference', 'AbsoluteDifference', 'CenteredProduct')]
+    js = [dict(name=f'pairs-{op}-{part}', kind='pairs', op=op, part=part, tier=tier) for op in ('Product', 'Difference', 'AbsoluteDifference', 'CenteredProduct') for part in range(3)]
     js += [dict(name=f'nowrap-{dt}', kind='nowrap', dt=dt) for dt in ('uint8', 'int8', 'uint16', 'int16', 'int32', 'uint32', 'int64')]
     js += [dict(name='first-order', kind='first'), dict(name='time-frequency', kind='tf')]
     return js
@@ -88,13 +97,16 @@ def syms_of(t):
 def job_pairs(job, res):
     op = job['op']
     ho = _m['ho']
-    Lr = 5
+    Lr = 5 if job.get('tier', 'quick') == 'quick' else 6
+    CONFIGS = configs(job.get('tier', 'quick'), Lr)[job.get('part', 0)::3]
 
     def body(ex, pr):
         x = S.sym_real('x', (2, Lr), 'float64')
         x2 = S.sym_real('z', (2, Lr), 'float64')
         mean = S.sym_real('mu', (Lr,), 'float64')
         for cfg in CONFIGS:
+            if res['failures']:
+                break
             kw = dict(cfg)
             if op == 'CenteredProduct':
                 kw['mean'] = mean
@@ -380,18 +392,19 @@ def replay(w):
         op = w['op']
         cfg = {k: eval(v) for k, v in w['cfg'].items()}
         x0, x2 = L.to_numpy(w['x']), L.to_numpy(w['x2'])
-        tries = [(x0, x2)] + [(np.array([rnd.uniform(-5, 5) for _ in range(10)]).reshape(2, 5), np.array([rnd.uniform(-5, 5) for _ in range(10)]).reshape(2, 5)) for _ in range(4)]
+        Lw = x0.shape[1]
+        tries = [(x0, x2)] + [(np.array([rnd.uniform(-5, 5) for _ in range(2 * Lw)]).reshape(2, Lw), np.array([rnd.uniform(-5, 5) for _ in range(2 * Lw)]).reshape(2, Lw)) for _ in range(4)]
         mean = L.to_numpy(w['mean']) if w.get('mean') else None
         for X, X2 in tries:
             kw = dict(cfg)
             if op == 'CenteredProduct':
-                kw['mean'] = mean if mean is not None else np.arange(5.0)
+                kw['mean'] = mean if mean is not None else np.arange(float(Lw))
             pp = getattr(P.high_order, op)(**kw)
             out = pp(X)                      # the very array handed to the caller
             keep = np.array(out, copy=True)
             pp(X2)
-            pairs = pair_list(cfg, 5)
-            mu = kw.get('mean', np.zeros(5))
+            pairs = pair_list(cfg, Lw)
+            mu = kw.get('mean', np.zeros(Lw))
             exp = np.array([[((X[r, i] - mu[i]) * (X[r, j] - mu[j]) if op == 'CenteredProduct' else X[r, i] * X[r, j] if op == 'Product' else X[r, i] - X[r, j] if op == 'Difference' else abs(X[r, i] - X[r, j]))
                              for (i, j) in pairs] for r in range(2)])
             if keep.shape != exp.shape or not np.allclose(keep, exp, rtol=1e-6, atol=1e-6):
